@@ -4,5 +4,5 @@ prop=$1; patch=$2
 cd /verif || exit 3
 if ! git -C /repo diff --quiet; then echo "repo dirty"; exit 3; fi
 git -C /repo apply "$(realpath "$patch")" || { echo "patch does not apply"; exit 3; }
-timeout 1800 ./check "$prop" quick 2>&1 | cut -c1-400 | tail -${3:-6}
+timeout 900 ./check "$prop" quick 2>&1 | cut -c1-400 | tail -${3:-6}
 git -C /repo checkout -- .
